@@ -1012,6 +1012,9 @@ fn profile_name() -> &'static str {
 }
 
 impl Check for C08 {
+    fn stall_secs(_tier: Tier) -> Option<u64> {
+        None
+    }
     type Case = Case;
     const ID: &'static str = "C08";
     fn rule() -> String {
